@@ -91,6 +91,32 @@ CHECKS = {
          "DESIGN.md section 4 C02"),
 }
 
+
+# families added after the seeded rounds (DESIGN.md 9.5); appended to the level text
+EXT = {
+ "C01": "Also: window-complete (de Bruijn) medium words, lopsided neutral-free families (one/two minority residues at every position, a minority block at offsets 0..6 inside majorities of 20..68/12..90), eight 260-340-residue patterns with more than 256 residues of a class, the exact delta after kappa on the same object, construction-route rotation (plain/lower/spaced/mixed case/SeqObj).",
+ "C02": "Also: structured long families to 1000 residues, every length 1..200/520 ascending and descending in a fresh package, >1000-residue shared-termini sequences, shared-core families (same irregular core between 0/1/3/8 neutral residues), window-complete medium words, construction-route rotation.",
+ "C03": "Also: the >=18-neutral lattice to total 32/50 (minority <=6 to 80), regime-intersection lattices (one charge type x n0 in 18..36/90; no neutrals with a minority of 1..8 against a majority to 48/96; n0 in {1,17} with small minorities), ten compositions with >256 residues of a class, permutant asked with truthy non-True flags after the value is cached.",
+ "C04": "Also: 13 further spellings of the PPII scale name, 1000-12000-residue sequences over all 20 residues, an after-context pass (16 other API calls incl. kappa_X with absent groups, each followed by 14 composition getters) and the same getters on four derived objects (permutant, two shuffles, SeqObj-sharing wrapper).",
+ "C05": "Also: window-complete medium words with their substitution variants.",
+ "C06": "Also: every two-class word to length 10/13 for Omega, long words with one rare letter, window-complete words over {D,E,K,R,G,P} x all 729 assignments, collision histories on one reused object, ten container types for groups, invalid members incl. three-letter codes in absent groups.",
+ "C07": "Also: structured long families (64..1000), patterns with more than 1024 charged residues at 1100/1501 (2600) residues, every length 2..200/520 in both directions in a fresh package, shared-core families, window-complete medium words, construction-route rotation.",
+ "C08": "Also: near-threshold compositions for every chain length to 1300/6000, construction-route rotation.",
+ "C09": "Also: pH given as Python/numpy ints and float64, the bisection midpoints, floats adjacent to both bounds (nextafter, -1e-300, 0.3-3*0.1, +-inf), pI-first histories, a (count,length) lattice for every chain length to 200/600.",
+ "C10": "Also: windows of 128-300 residues, numpy-integer windows, repeated/duplicate/container-typed group lists, window-complete medium words, rejected window first on the same object and as the first request of a fresh package.",
+ "C11": "Also: windows of 256-512 residues, WF at every window length of 31-81-residue words over {L,K,F} and over all 20 residues, alphabet sizes as strings/floats/numpy numbers, rejected window first, one user-alphabet dictionary edited in place between calls.",
+ "C12": "Also: size spellings, three sweeps on one object, returned alphabets overwritten by the caller, each valid user alphabet in five other key orders with and without extra keys, invalid targets that are also keys, a rejected alphabet between two requests for the same size (all 12 sizes x 20 fault positions), one dictionary edited in place.",
+ "C13": "Also: long strings to 3000 characters with up to 500 whitespace stretches, 2100-character strings with one foreign character from outside Latin-1, objects whose str() is a valid word (nan, inf, Decimal, paths, exceptions, UserString), every rejected string submitted three times, the SeqObj / SequencePermutants route, parser<->validator cross-talk in three orders.",
+ "C14": "Also: 11000-35000-residue files, rejected files through the constructor, non-ASCII digits, 13 undecodable byte strings at every position of the sequence lines (in-memory open honouring encoding/errors, and real binary files), 30-residue files over every residue, every residue pair and nucleotide-like sub-alphabets.",
+ "C15": "Also: all ordered same-object call pairs, 56+ ordered input pairs chosen to collide on coarse cache keys, nine context groups from other API areas (plots, moves, files, WL run, rejected calls, accepted-but-degenerate arguments, setters on derived objects), returned containers overwritten by the harness.",
+ "C16": "Also: two-epoch histories, interleaved read-only queries, sequences whose phospho-states lie in kappa's clamp window, 6- and 7-site sequences (64/128 on-off states), returned lists overwritten by the caller followed by one more transition, independent shuffled copies, numpy integers of seven widths.",
+ "C17": "Also: six 10-14-residue patterns with 6-11 residues of one sign for the retry moves, frozen sets with members outside the sequence, numpy-integer frozen collections, warmed parent caches with child analyses and the child's delta-max permutant, consistency of the returned public object, two-move sequences, a reused frozen-set object; trees are bounded (6 constructions per move, 5000 executions) and reported as capped if cut.",
+ "C18": "Also: non-dyadic ranges, a machine run twice, same-composition sequences in one package, long base-tape runs with g>10, slow-start configurations, a configuration with frozen residues, bin walks (one composition under every bin count 1..12), a 22-residue irregular input with six 0.1-wide bins, bin geometry for every equal partition into 1..256 bins, thresholds at or above the initial f (zero steps).",
+ "C19": "Also: polygons x every composition to 80/150, varying numbers of unlabelled sequences in one process, rejected-call-then-plot, all homopolymers, coordinates as strings/numpy numbers, numeric labels incl. zero on ordinary and extreme (>0.8) markers, markers sharing an x-coordinate, every save format followed by further plots with nothing closed by the caller, 221/300-residue linear plots.",
+ "C20": "Also: caller-edited dictionaries, first object of a fresh package, extra keys (accepted, ignored), six other key orders, analyses/plots/shuffles between update and rendering, two handles on one sequence object.",
+}
+
+
 def main():
     props = [json.loads(l) for l in open(os.path.join(HERE, "properties.jsonl"))]
     na_reason = {}
@@ -107,7 +133,8 @@ def main():
             "evidence_file": "/verif/evidence/%s.json" % pid,
             "replay_cmd_template": "./check %s --replay {path}" % pid,
             "engine": eng,
-            "level_claimed": {"category": "model_checking", "text": text, "design_ref": ref},
+            "level_claimed": {"category": "model_checking", "text": text + " " + EXT.get(pid, "") + " The rule string in evidence/%s.json is the current, authoritative description of what one run enumerated." % pid,
+                              "design_ref": ref + "; section 9.5"},
             "level_note": note,
             "technique": tech,
         })
